@@ -29,14 +29,18 @@ def _entry(prefix, node_long):
     return _ENTRIES[prefix][node_long]
 
 
-# ---- partition: exact length (VP_LEN) x class of the first character (VP_G0)
-_GROUPS = ["aA", "bB", "cC", "dD", "eEoOiI", "fF", "gGhHuU", "/", "p:"]    # + "everything else"
-NG = len(_GROUPS) + 1
+# ---- partition: exact length (VP_LEN) x class of the first character (VP_G0); VP_FINE=1 selects the finer classes
+_COARSE = ["aA", "bB", "cC", "dD", "eEoOiI", "fF", "gGhHuU", "/", "p:"]           # + "everything else"
+_FINE = ["a", "A", "b", "B", "c", "C", "dD", "eE", "oOiI", "f", "F", "g", "G", "h", "H", "u", "U", "/", "p:"]
+
+
+def _groups():
+    return _FINE if R.env_int("VP_FINE") else _COARSE
 
 
 def _g0(ch):
     i = 0
-    for g in _GROUPS:
+    for g in _groups():
         for c in g:
             if ch == c:
                 return i
@@ -52,14 +56,22 @@ def _cell(s):
     if g is not None:
         if len(s) < 1 or _g0(s[0]) != g:
             return False
+    if R.env_int("VP_S1"):                 # shape cell: second character is the slash (x/...)
+        if len(s) < 2 or s[1] != "/":
+            return False
     return True
 
 
-def _cells(n, split_from, minlen=0):
+def _cells(n, split_from, fine_from=99, minlen=0):
+    """disjoint cover of {s: minlen <= len(s) <= n}: one cell per length; lengths >= split_from are split by the
+    class of s[0] (coarse classes, fine classes from length fine_from on)"""
     out = []
     for L in range(minlen, n + 1):
-        if L >= max(split_from, 1):
-            for g in range(NG):
+        if L >= max(fine_from, 1):
+            for g in range(len(_FINE) + 1):
+                out.append({"VP_LEN": L, "VP_G0": g, "VP_FINE": 1})
+        elif L >= max(split_from, 1):
+            for g in range(len(_COARSE) + 1):
                 out.append({"VP_LEN": L, "VP_G0": g})
         else:
             out.append({"VP_LEN": L})
@@ -70,6 +82,8 @@ def _cells(n, split_from, minlen=0):
 def _kf_hash_term(text, prefixes):
     """`C/#/x`: the reference says node A/B/C/# with value '/#/x' (kept verbatim); hed-python consumes 'C/#' as a
     table form and keeps only '/x', so long/short forms silently drop the '#' term."""
+    if text.find("/#/") == -1:          # cheap guard: the class needs a literal '#' term followed by a slash
+        return False
     p, n, r = MR.resolve_ns(text, prefixes)
     return n is not None and n.endswith("/#") and r.startswith("/#/")
 
@@ -173,10 +187,17 @@ def _ns_k(k):
     return 0 <= k <= 1 and (c is None or k == c)
 
 
+def _len_ok(s, lo=0):
+    """len(s) within lo..VP_N; the shape cell VP_S1 (x/y..., exact length VP_LEN) extends the bound by one"""
+    if R.env_int("VP_S1"):
+        return lo <= len(s) <= R.N(2) + 1
+    return lo <= len(s) <= R.N(2)
+
+
 def namespace_variants(k: int, s: str) -> bool:
     """
     pre: _ns_k(k)
-    pre: len(s) <= R.N(2)
+    pre: _len_ok(s)
     pre: _cell(s)
     pre: R.ascii_printable(s)
     pre: not _kf_hash_term(_PFX[k] + s, _PFX)
@@ -212,25 +233,23 @@ def _plain_tag_text(s):
 
 def string_forms(s: str) -> bool:
     """
-    pre: 1 <= len(s) <= R.N(2)
+    pre: _len_ok(s, 1)
     pre: _cell(s)
     pre: R.ascii_printable(s)
     pre: _plain_tag_text(s)
     pre: not _kf_hash_term(s, _PFX)
     post: _
     """
-    hs = HedString(s + ",(p:" + s + ")", GROUP)
+    text = "(" + s + "),p:b/c"
+    hs = HedString(text, GROUP)
     p, n, r = MR.resolve_ns(s, _PFX)
-    p2, n2, r2 = MR.resolve_ns("p:" + s, _PFX)
-    lo1 = MR.long_form(n, r, p) if n is not None else s
-    sh1 = MR.short_form(n, r, p) if n is not None else s
-    lo2 = MR.long_form(n2, r2, p2) if n2 is not None else "p:" + s
-    sh2 = MR.short_form(n2, r2, p2) if n2 is not None else "p:" + s
-    if hs.get_as_long() != lo1 + ",(" + lo2 + ")":
+    lo = MR.long_form(n, r, p) if n is not None else s
+    sh = MR.short_form(n, r, p) if n is not None else s
+    if hs.get_as_long() != "(" + lo + "),p:A/B/C":
         return False
-    if hs.get_as_short() != sh1 + ",(" + sh2 + ")" or str(hs) != sh1 + ",(" + sh2 + ")":
+    if hs.get_as_short() != "(" + sh + "),p:C" or str(hs) != "(" + sh + "),p:C":
         return False
-    return hs.get_as_original() == s + ",(p:" + s + ")"
+    return hs.get_as_original() == text
 
 
 _T_FIND = ["hed.schema.hed_schema.HedSchema.find_tag_entry", "hed.schema.hed_schema.HedSchema._find_tag_entry",
@@ -250,47 +269,51 @@ _T_GROUP = ["hed.schema.hed_schema_group.HedSchemaGroup.find_tag_entry",
             "hed.schema.hed_schema_group.HedSchemaGroup.schema_for_namespace"]
 _STUBS = ["mini schema (vp/mini.py): 25-node tiny-name tag tree loaded by the real MediaWiki loader; the claim is "
           "about this schema's shapes, not the bundled vocabularies",
-          "chx: ASCII-exact casefold()/lower() model for CrossHair strings; inputs restricted to printable ASCII"]
+          "chx: ASCII-exact casefold()/lower() model for CrossHair strings; inputs restricted to printable ASCII",
+          "the suffix-form table (_get_tag_forms/_check_if_duplicate) and the takes-value links (finalize_entry) are "
+          "built concretely at import by the real loader from the mini MediaWiki text; the symbolic runs read them"]
 _OUT = ("non-ASCII spellings; tag texts longer than the bound; the bundled schemas' vocabularies; rooted library "
         "tags / merged schemas; df_util.convert_to_form (pandas)")
 
+_MINI_B = "every printable-ASCII tag text s with len(s) <= %d, schema MINI"
+_NS_B = "text = ns + s, ns in {'', 'p:'}, every printable-ASCII s with len(s) <= %d, HedSchemaGroup([MINI, MINI_P])"
+_SF_B = ("HedString('(' + s + '),p:b/c') for every delimiter-free, blank-trimmed printable-ASCII s with "
+         "1 <= len(s) <= %d, HedSchemaGroup([MINI, MINI_P])")
+
+_X_Y = [{"VP_LEN": 3, "VP_S1": 1}]          # extra shape cell of the quick tier: s = x + "/" + y
+_X_Y_B = "; plus every s = x + '/' + y with single printable-ASCII characters x, y"
+
 HARNESSES = [
     R.H("resolves_like_reference", _T_FIND + _T_TAG,
-        quick=R.tier(cells=_cells(3, 3), env={"VP_N": 3}, timeout=150,
-                     bound="every printable-ASCII tag text s with len(s) <= 3, schema MINI"),
-        thorough=R.tier(cells=_cells(5, 2), env={"VP_N": 5}, timeout=1100, path_timeout=60,
-                        bound="every printable-ASCII tag text s with len(s) <= 5, schema MINI"),
+        quick=R.tier(cells=_cells(4, 3), env={"VP_N": 4}, timeout=300, bound=_MINI_B % 4),
+        thorough=R.tier(cells=_cells(6, 3, fine_from=5), env={"VP_N": 6}, timeout=1500, path_timeout=60,
+                        bound=_MINI_B % 6),
         what="HedTag(s) is identified iff the reference tree walk resolves s, as the same node (the entry object "
-             "registered under the node's long name), with the remainder kept verbatim; long_tag/short_tag/base_tag/"
-             "short_base_tag/org_base_tag/extension/tag_terms are node + remainder; find_tag_entry agrees; "
+             "the loader created for the node's long name), with the remainder kept verbatim; long_tag/short_tag/"
+             "base_tag/short_base_tag/org_base_tag/extension/tag_terms are node + remainder; find_tag_entry agrees; "
              "get_tag_entry(s) finds the node iff the whole text is a spelling",
         oracle="models/mini_rules.py resolve_ns (left-to-right tree walk over the MediaWiki tag tree)",
         stubs=_STUBS, outside=_OUT),
     R.H("forms_inverse", _T_FIND + _T_TAG,
-        quick=R.tier(cells=_cells(3, 3), env={"VP_N": 3}, timeout=150,
-                     bound="every printable-ASCII tag text s with len(s) <= 3, schema MINI"),
-        thorough=R.tier(cells=_cells(5, 2), env={"VP_N": 5}, timeout=1100, path_timeout=60,
-                        bound="every printable-ASCII tag text s with len(s) <= 5, schema MINI"),
+        quick=R.tier(cells=_cells(4, 3), env={"VP_N": 4}, timeout=300, bound=_MINI_B % 4),
+        thorough=R.tier(cells=_cells(5, 3, fine_from=5), env={"VP_N": 5}, timeout=1500, path_timeout=60,
+                        bound=_MINI_B % 5),
         what="for identified t: HedTag(long(t)) and HedTag(short(t)) are the same entry object as t; "
              "long(short(t)) == long(t), short(long(t)) == short(t), both idempotent; the suffix is verbatim",
         oracle="second and third run of the real code on its own output", stubs=_STUBS, outside=_OUT),
     R.H("case_variants", _T_FIND + _T_TAG,
-        quick=R.tier(cells=_cells(3, 3), env={"VP_N": 3}, timeout=150,
-                     bound="every printable-ASCII tag text s with len(s) <= 3, schema MINI"),
-        thorough=R.tier(cells=_cells(5, 2), env={"VP_N": 5}, timeout=1100, path_timeout=60,
-                        bound="every printable-ASCII tag text s with len(s) <= 5, schema MINI"),
+        quick=R.tier(cells=_cells(3, 3), env={"VP_N": 3}, timeout=300, bound=_MINI_B % 3),
+        thorough=R.tier(cells=_cells(5, 3, fine_from=5), env={"VP_N": 5}, timeout=1500, path_timeout=60,
+                        bound=_MINI_B % 5),
         what="s.lower(), s.upper() and s.swapcase() are identified as the same entry object as s (or all are "
              "unidentified), with the remainder transformed the same way and the same base forms",
         oracle="three further runs of the real code on case variants",
         stubs=_STUBS + ["chx_case: ASCII-exact upper()/swapcase() model for CrossHair strings"], outside=_OUT),
     R.H("namespace_variants", _T_FIND + _T_TAG + _T_GROUP,
-        quick=R.tier(cells=R.product_cells(R.int_cells("VP_K", 0, 1), _cells(2, 9)), env={"VP_N": 2}, timeout=150,
-                     bound="text = ns + s, ns in {'', 'p:'}, every printable-ASCII s with len(s) <= 2, "
-                           "HedSchemaGroup([MINI, MINI_P])"),
-        thorough=R.tier(cells=R.product_cells(R.int_cells("VP_K", 0, 1), _cells(4, 2)), env={"VP_N": 4},
-                        timeout=1100, path_timeout=60,
-                        bound="text = ns + s, ns in {'', 'p:'}, every printable-ASCII s with len(s) <= 4, "
-                              "HedSchemaGroup([MINI, MINI_P])"),
+        quick=R.tier(cells=R.product_cells(R.int_cells("VP_K", 0, 1), _cells(2, 9) + _X_Y), env={"VP_N": 2},
+                     timeout=300, bound=(_NS_B % 2) + _X_Y_B),
+        thorough=R.tier(cells=R.product_cells(R.int_cells("VP_K", 0, 1), _cells(4, 3, fine_from=4)),
+                        env={"VP_N": 4}, timeout=1500, path_timeout=60, bound=_NS_B % 4),
         what="on the schema group: ns + s is identified iff the reference resolves it, in the schema owning the "
              "prefix, as the same-named node with the same verbatim remainder; forms carry the prefix; long/short "
              "round trip to the same entry; the other prefix gives the same-named node of the other schema",
@@ -298,14 +321,11 @@ HARNESSES = [
     R.H("string_forms", _T_FIND + _T_TAG + _T_GROUP + ["hed.models.hed_group.HedGroup.get_as_form",
                                                       "hed.models.hed_string.HedString.get_as_long",
                                                       "hed.models.hed_string.HedString.get_as_short"],
-        quick=R.tier(cells=_cells(2, 9, minlen=1), env={"VP_N": 2}, timeout=150,
-                     bound="HedString(s + ',(p:' + s + ')') for every delimiter-free, blank-trimmed "
-                           "printable-ASCII s with 1 <= len(s) <= 2, schema group"),
-        thorough=R.tier(cells=_cells(4, 2, minlen=1), env={"VP_N": 4}, timeout=1100, path_timeout=60,
-                        bound="HedString(s + ',(p:' + s + ')') for every delimiter-free, blank-trimmed "
-                              "printable-ASCII s with 1 <= len(s) <= 4, schema group"),
+        quick=R.tier(cells=_cells(2, 9, minlen=1) + [dict(_X_Y[0], VP_G0=g) for g in range(len(_COARSE) + 1)], env={"VP_N": 2}, timeout=300, bound=(_SF_B % 2) + _X_Y_B),
+        thorough=R.tier(cells=_cells(3, 9, fine_from=3, minlen=1), env={"VP_N": 3}, timeout=1500, path_timeout=60,
+                        bound=_SF_B % 3),
         what="get_as_long/get_as_short/str of a parsed annotation are the reference long/short forms of its tags "
-             "in place; get_as_original is the source",
+             "in place (with and without namespace prefix); get_as_original is the source",
         oracle="models/mini_rules.py long_form/short_form",
         stubs=_STUBS + ["split_into_groups recompiled with `is` on characters replaced by `==` (as in C02)"],
         outside=_OUT),
